@@ -316,6 +316,37 @@ def r21_7(ctx, rep):
            "`%s` (line %s) can run after the cache file has been written" % ((norm(late[0][1].ast)[:60], late[0][1].ast.lineno) if late else ("", "")))
 
 
+@SPEC.rule(
+    "R21.8",
+    "writing and reading the cache changes nothing process-wide: casadi/api.py calls no signal.signal / signal.pthread_sigmask / os.chdir / "
+    "os.umask / sys.setrecursionlimit / locale.setlocale — `hold Ctrl-C back while dumping` raises ValueError in every thread but the main "
+    "one, after the cache file was opened for writing: the empty file stays and the error escapes transfer_model's recompile fallback",
+)
+def r21_8(ctx, rep):
+    R = "R21.8"
+    GLOBAL_CALLS = ("signal.signal", "signal.pthread_sigmask", "signal.setitimer", "signal.alarm", "os.chdir", "os.umask", "sys.setrecursionlimit",
+                    "locale.setlocale", "sys.setswitchinterval", "os.setuid", "os.nice")
+    probe = ast.parse("def f():\n    signal.signal(signal.SIGINT, signal.SIG_IGN)\n")
+    if not [c for c in ast.walk(probe) if isinstance(c, ast.Call) and call_name(c) in GLOBAL_CALLS]:
+        raise AnalysisError(R, "self-test of the process-wide-call detector failed")
+    mod = ctx.module(API, R)
+    fns = [f for f in ast.walk(mod) if isinstance(f, ast.FunctionDef)]
+    hits = ["%s line %d: %s" % (f.name, c.lineno, norm(c)[:50]) for f in fns for c in calls(f) if call_name(c) in GLOBAL_CALLS]
+    if len(fns) < 8:
+        raise MechanismMissing(R, "fewer than 8 functions scanned in casadi/api.py")
+    rep.ob(R, API, "no process-wide state is changed by the cache code", not hits, "; ".join(hits[:3]))
+
+
+@SPEC.rule(
+    "R21.9",
+    "a library a killed writer left behind is never taken for a finished one: _codegen_model builds the library on every call (R19.9's rule "
+    "evaluated for this property) — `it is newer than the sources` is also true of a half-linked file",
+)
+def r21_9(ctx, rep):
+    from .c19 import codegen_always_builds
+    codegen_always_builds(ctx, rep, "R21.9")
+
+
 # -- seeded variants ---------------------------------------------------------
 from ._mut import replace_in_func  # noqa: E402
 
